@@ -256,7 +256,7 @@ def check_chunked(ck, LIVE, R="C04.chunked-total-limit"):
     if not lens:
         raise AnalysisError("_read_chunked_body: parsed chunk length not found")
     acc = {k: v for k, v in _accumulators(fi).items() if any(q.dotted(s.value) in lens for s in v)}
-    data_nodes = [(n, c) for n, c in call_sites(fi, ".read_bytes") if q.kwarg(c, "partial") is not None]
+    data_nodes = [(n, c) for n, c in call_sites(fi, ".read_bytes") if not isinstance(q.arg(c, 0, "num_bytes"), ast.Constant)]
     data_nodes += [(n, c) for n, c in cfg.find(lambda x: isinstance(x, ast.Call) and q.call_attr(x) == "data_received")]
     ck.floor(R, len(data_nodes), 2, "chunk data reads/deliveries")
     if not acc:
@@ -360,10 +360,15 @@ def check_fresh_limit(ck, LIVE, gz_limits):
     live_attr = LIVE.split(".", 1)[1]
     # construction sites of the gzip delegate inside HTTP1Connection
     sites = []
-    for f in repo.methods(H1, "HTTP1Connection"):
-        for c in q.calls(f.node):
-            if q.call_attr(c) == "_GzipMessageDelegate" and isinstance(c.func, ast.Name):
-                sites.append((f, c))
+    rr_norm = _F(ck, H1, "HTTP1Connection.read_response")
+    for c in q.calls(rr_norm.node):
+        if q.call_attr(c) == "_GzipMessageDelegate" and isinstance(c.func, ast.Name):
+            sites.append((rr_norm, c))
+    if not sites:
+        for f in repo.methods(H1, "HTTP1Connection"):
+            for c in q.calls(f.node):
+                if q.call_attr(c) == "_GzipMessageDelegate" and isinstance(c.func, ast.Name):
+                    sites.append((f, c))
     ck.floor(R, len(sites), 1, "_GzipMessageDelegate construction sites")
 
     def arg_for(c, pname):
@@ -414,19 +419,7 @@ def check_fresh_limit(ck, LIVE, gz_limits):
     ck.floor(R2, len(ctor), 1, "HTTP1Connection constructions in the serving loop")
     for c in ctor:
         ck.ob(R2, loop, c, any(isinstance(a, ast.While) for a in q.ancestors(pm, c)), "a fresh HTTP1Connection (hence a fresh body limit) is created for every request; a per-request override cannot leak")
-    ci = _F(ck, H1, "HTTP1Connection.__init__")
-    sts = q.stores_to(ci.node, LIVE)
-    ck.floor(R2, len(sts), 1, "initialisation of %s" % LIVE)
-    for st in sts:
-        v = st.value
-        CFGD = ("self.params.max_body_size", "params.max_body_size")
-        ok = False
-        if isinstance(v, ast.IfExp) and isinstance(v.test, ast.Compare) and len(v.test.ops) == 1 and q.is_const(v.test.comparators[0], None) and q.dotted(v.test.left) in CFGD:
-            if isinstance(v.test.ops[0], ast.IsNot):
-                ok = q.dotted(v.body) in CFGD and q.dotted(v.orelse) == "self.stream.max_buffer_size"
-            elif isinstance(v.test.ops[0], ast.Is):
-                ok = q.dotted(v.orelse) in CFGD and q.dotted(v.body) == "self.stream.max_buffer_size"
-        ck.ob(R2, ci, st, ok, "the connection limit is params.max_body_size whenever that is not None — tested with 'is None', not truthiness: 0 is a legal limit — else the stream's max_buffer_size")
+    check_limit_init(ck, LIVE, R2)
     # nobody compares body sizes with the stale configuration value
     n = 0
     for f in repo.module(H1).funcs.values():
@@ -435,6 +428,35 @@ def check_fresh_limit(ck, LIVE, gz_limits):
                 ck.ob(R2, f, x, False, "body sizes are compared with the live %s, not with params.max_body_size (which ignores set_max_body_size)" % LIVE)
             n += 1
     return None
+
+
+def check_limit_init(ck, LIVE, R):
+    """HTTP1Connection.__init__ by abstract interpretation: the live limit is params.max_body_size whenever that is not
+    None (0 is a legal limit: no truthiness fallback), else the stream's max_buffer_size."""
+    from ..x_absint import Evaluator, Obj, UNK
+    from ..x_http import self_modsets
+    ci = _F(ck, H1, "HTTP1Connection.__init__")
+    ps = [p for p in ci.params() if p != "self"]
+    if len(ps) < 3:
+        raise AnalysisError("HTTP1Connection.__init__: expected (stream, is_client, params, ...)")
+    ms = self_modsets(ck.repo, H1, "HTTP1Connection")
+    attr = LIVE.split(".", 1)[1]
+    for configured in (None, 0, 500):
+        ev = Evaluator(modset=lambda d: ms.get(d.split(".")[1]))
+        env = {"self": Obj("self"), ps[0]: Obj("stream", max_buffer_size=9999), ps[1]: False,
+               ps[2]: Obj("params", max_body_size=configured, body_timeout=None, no_keep_alive=False, max_header_size=65536, chunk_size=65536, header_timeout=None, decompress=False)}
+        for p in ps[3:]:
+            env[p] = None
+        outs = [o for o in ev.run(ci.node, env) if o.kind != "raise"]
+        if not outs:
+            raise AnalysisError("HTTP1Connection.__init__ has no normal outcome")
+        for o in outs:
+            got = o.state.env["self"].attrs.get(attr, UNK)
+            if got is UNK:
+                raise AnalysisError("HTTP1Connection.__init__: initial %s not decidable by constant folding" % LIVE)
+            want = 9999 if configured is None else configured
+            ck.ob(R, ci, ci.node, got == want, "the connection's body limit starts as params.max_body_size whenever that is not None (0 is a legal limit, not 'unset'), else the stream's max_buffer_size [configured=%r -> %r]" % (configured, got),
+                  construct="initial body limit for max_body_size=%r" % (configured,))
 
 
 def _field_source(init, field):
@@ -488,6 +510,8 @@ def check_wiring(ck):
 
 
 def run(ck):
+    from ..x_http import GuardedCheck
+    ck = GuardedCheck(ck)
     ck.rule("C04.bounded-reads", "every stream read in http1connection.py carries an explicit bound; the header block is read within params.max_header_size")
     ck.rule("C04.max-bytes-enforced", "IOStream records max_bytes, _check_max_bytes enforces it on every delimiter/regex position and on the not-found path, and an unsatisfiable read closes the stream")
     ck.rule("C04.buffer-cap", "_read_to_buffer: after every append the buffer size is compared with max_buffer_size; over the cap it closes and raises")
